@@ -5,7 +5,7 @@ import "verif/engine/gossa"
 func init() {
 	pfx := "github.com/google/wuffs/lib/litonlylzma."
 	stubRaw := func(c *gossa.Config, thorough bool) {
-		c.Replace = map[string]string{pfx + "encodeRaw": "vhStubEncodeRaw", pfx + "decodeRaw": "vhStubDecodeRaw"}
+		c.Replace = map[string]string{pfx + "encodeRaw": "!vhStubEncodeRaw", pfx + "decodeRaw": "!vhStubDecodeRaw"}
 	}
 	big := func(c *gossa.Config, thorough bool) { c.ConcCap = 300; c.IteCap = 256 }
 	p := &PropSpec{ID: "C17", Level: "model_checking",
@@ -28,6 +28,8 @@ func init() {
 		{Prop: "C17", Pkg: L, Dir: "c17", Func: "VH_C17_RoundTrip", Label: "[lzma,empty]", Params: map[string]int{"N": 0, "XZ": 0}, Reach: []string{"rt/done"}},
 		{Prop: "C17", Pkg: L, Dir: "c17", Func: "VH_C17_RoundTrip", Label: "[xz,empty]", Params: map[string]int{"N": 0, "XZ": 1}, Reach: []string{"rt/done"}},
 		{Prop: "C17", Pkg: L, Dir: "c17", Func: "VH_C17_XzFrame", Params: map[string]int{"NMAX": 10}, ParamsT: map[string]int{"NMAX": 14}, Reach: []string{"xz/done"}, Cfg: stubRaw},
+		{Prop: "C17", Pkg: L, Dir: "c17", Func: "VH_C17_XzFrameBig", Label: "[tail=0]", Params: map[string]int{"TAIL": 0}, Reach: []string{"xzbig/done"}, Cfg: stubRaw},
+		{Prop: "C17", Pkg: L, Dir: "c17", Func: "VH_C17_XzFrameBig", Label: "[tail=2]", Params: map[string]int{"TAIL": 2}, Reach: []string{"xzbig/done"}, Cfg: stubRaw},
 		{Prop: "C17", Pkg: L, Dir: "c17", Func: "VH_C17_RobustLZMA", Params: map[string]int{"N": 19, "MAXSIZE": 1}, ParamsT: map[string]int{"N": 20}, Reach: []string{"robust/done"}},
 		{Prop: "C17", Pkg: L, Dir: "c17", Func: "VH_C17_RobustLZMA", Label: "[short]", Params: map[string]int{"N": 12, "MAXSIZE": 1}, Reach: []string{"robust/done"}},
 		{Prop: "C17", Pkg: L, Dir: "c17", Func: "VH_C17_RobustXz", Tier: "thorough", Params: map[string]int{"M": 12}, Reach: []string{"robustxz/done"}},
